@@ -84,6 +84,13 @@ func plan(seed int64, tier string) []vrt.Case {
 	for lo := 0; lo < nAlign; lo += 400 {
 		add(fmt.Sprintf("align-%d", lo), params{Kind: "align", Lo: lo, Hi: min(lo+400, nAlign), N: nAlign, Full: tier == "thorough"})
 	}
+	nConc := 6
+	if tier == "thorough" {
+		nConc = 160
+	}
+	for i := 0; i < nConc; i++ {
+		add(fmt.Sprintf("concurrent-%d", i), params{Kind: "concurrent", Lo: i, N: 30})
+	}
 	add("golden", params{Kind: "golden"})
 	rangeID := func(r lzwork.Range) string {
 		return fmt.Sprintf("short-%s-p%d-n%d-%d", strings.ReplaceAll(r.Alpha, " ", "S"), len(r.Prefix), r.Len, r.Lo)
@@ -411,6 +418,19 @@ func run(cs vrt.Case) vrt.Obs {
 			c.modes(specs[i].String(), in, uint64(i), true, nil, []bool{i%2 == 0})
 		}
 		o.Sample = map[string]any{"kind": p.Kind, "inputs": p.Hi - p.Lo, "first_inputs": names}
+	case "concurrent":
+		// four goroutines run both directions on different inputs at the same time
+		vrt.Parallel(&o, 4, func(g int, po *vrt.Obs) {
+			cc := &ctx{o: po, seed: p.Seed}
+			r := vrt.Rand(p.Seed, "c07-concurrent", p.Lo, g)
+			for i := 0; i < p.N; i++ {
+				sp := lzwork.RandomSpec(r)
+				sp.Size %= 70001
+				po.Count("inputs_coded_while_other_goroutines_were_at_work", 1)
+				cc.modes(sp.String(), sp.Bytes(), uint64(i+7*g), false, nil, []bool{(i+g)%2 == 0})
+			}
+		})
+		o.Sample = map[string]any{"kind": "concurrent", "goroutines": 4, "inputs_per_goroutine": p.N}
 	case "golden":
 		// streams made by the original tool chain (not by the reference encoder): the library must read them
 		var names []string
